@@ -80,31 +80,43 @@ Fixpoint match_name (names : list string) (s : string) (best : option (string * 
   end.
 
 (* number:  digits [ . digits ] [ (e|E) [+|-] digits ]   -- s starts with a digit *)
+Definition lex_frac (r1 : string) : string * string :=
+  match r1 with
+  | String c r =>
+      if Ascii.eqb c "." then
+        match r with
+        | String c0 _ => if is_digit c0 then span is_digit r else (EmptyString, r1)
+        | EmptyString => (EmptyString, r1)
+        end
+      else (EmptyString, r1)
+  | EmptyString => (EmptyString, r1)
+  end.
+
+Definition lex_digits1 (r : string) : option (N * string) :=
+  let (d, r') := span is_digit r in
+  if (0 <? String.length d)%nat then Some (digits_val 0 d, r') else None.
+
+Definition lex_exp (r : string) : option (Z * string) :=
+  match r with
+  | String c r' =>
+      if Ascii.eqb c "-" then
+        match lex_digits1 r' with Some (v, q) => Some ((- Z.of_N v)%Z, q) | None => None end
+      else if Ascii.eqb c "+" then
+        match lex_digits1 r' with Some (v, q) => Some (Z.of_N v, q) | None => None end
+      else
+        match lex_digits1 r with Some (v, q) => Some (Z.of_N v, q) | None => None end
+  | EmptyString => None
+  end.
+
 Definition lex_number (s : string) : option (token * string) :=
   let (ip, r1) := span is_digit s in
-  let '(fp, r2) :=
-    match r1 with
-    | String "." r => match r with
-                      | String c _ => if is_digit c then span is_digit r else (EmptyString, r1)
-                      | EmptyString => (EmptyString, r1)
-                      end
-    | _ => (EmptyString, r1)
-    end in
+  let (fp, r2) := lex_frac r1 in
   let mant := digits_val (digits_val 0 ip) fp in
   let sc := (- Z.of_nat (String.length fp))%Z in
-  let exp_part (r : string) : option (Z * string) :=
-    match r with
-    | String "-" r' => let (d, r'') := span is_digit r' in
-                       if (0 <? String.length d)%nat then Some ((- Z.of_N (digits_val 0 d))%Z, r'') else None
-    | String "+" r' => let (d, r'') := span is_digit r' in
-                       if (0 <? String.length d)%nat then Some (Z.of_N (digits_val 0 d), r'') else None
-    | _ => let (d, r'') := span is_digit r in
-           if (0 <? String.length d)%nat then Some (Z.of_N (digits_val 0 d), r'') else None
-    end in
   match r2 with
   | String c r =>
       if (Ascii.eqb c "e" || Ascii.eqb c "E")%bool then
-        match exp_part r with
+        match lex_exp r with
         | Some (x, r') => Some (TNum mant (sc + x)%Z, r')
         | None => None
         end
@@ -117,6 +129,33 @@ Inductive lres : Type := LOk (ts : list token) | LErr | LOof.
 
 Definition lcons (t : token) (r : lres) : lres :=
   match r with LOk ts => LOk (t :: ts) | e => e end.
+
+(* single-character tokens *)
+Definition sym_token (c : ascii) : option token :=
+  if Ascii.eqb c "+" then Some TPlus else
+  if Ascii.eqb c "-" then Some TMinus else
+  if Ascii.eqb c "*" then Some TStar else
+  if Ascii.eqb c "/" then Some TSlash else
+  if Ascii.eqb c "^" then Some TCaret else
+  if Ascii.eqb c "=" then Some TEq else
+  if Ascii.eqb c "(" then Some TLP else
+  if Ascii.eqb c ")" then Some TRP else
+  if Ascii.eqb c "[" then Some TLB else
+  if Ascii.eqb c "]" then Some TRB else
+  if Ascii.eqb c "," then Some TComma else None.
+
+(* ".T" not followed by an identifier character *)
+Definition dot_t (s : string) : option string :=
+  match s with
+  | String c (String c1 r') =>
+      if (Ascii.eqb c "." && Ascii.eqb c1 "T")%bool then
+        match r' with
+        | String c2 _ => if is_idchar c2 then None else Some r'
+        | EmptyString => Some r'
+        end
+      else None
+  | _ => None
+  end.
 
 Fixpoint lex_fuel (n : nat) (names : list string) (s : string) : lres :=
   match n with
@@ -137,24 +176,13 @@ Fixpoint lex_fuel (n : nat) (names : list string) (s : string) : lres :=
             else if is_alpha c then
               let (id, rest) := span is_idchar s in lcons (TId id) (lex_fuel n names rest)
             else
-              match c, r with
-              | "+"%char, _ => lcons TPlus (lex_fuel n names r)
-              | "-"%char, _ => lcons TMinus (lex_fuel n names r)
-              | "*"%char, _ => lcons TStar (lex_fuel n names r)
-              | "/"%char, _ => lcons TSlash (lex_fuel n names r)
-              | "^"%char, _ => lcons TCaret (lex_fuel n names r)
-              | "="%char, _ => lcons TEq (lex_fuel n names r)
-              | "("%char, _ => lcons TLP (lex_fuel n names r)
-              | ")"%char, _ => lcons TRP (lex_fuel n names r)
-              | "["%char, _ => lcons TLB (lex_fuel n names r)
-              | "]"%char, _ => lcons TRB (lex_fuel n names r)
-              | ","%char, _ => lcons TComma (lex_fuel n names r)
-              | "."%char, String "T" r' =>
-                  match r' with
-                  | String c' _ => if is_idchar c' then LErr else lcons TDotT (lex_fuel n names r')
-                  | EmptyString => lcons TDotT (lex_fuel n names r')
+              match sym_token c with
+              | Some t => lcons t (lex_fuel n names r)
+              | None =>
+                  match dot_t s with
+                  | Some rest => lcons TDotT (lex_fuel n names rest)
+                  | None => LErr
                   end
-              | _, _ => LErr
               end
         end
     end
@@ -332,6 +360,60 @@ Definition parse_code (names : list string) (s : string) : option aexpr :=
   | Some ts => parse_toks ts
   | None => None
   end.
+
+(* ------------------------------------------------------------------------------------------------ *)
+(* reference printer (minimal brackets).  It exists only to pin the parser down:                     *)
+(*   Proofs/CodeSyntaxProofs.v proves  parse_toks (show 0 a) = Some a  for EVERY a.                  *)
+(* ------------------------------------------------------------------------------------------------ *)
+
+Definition level (a : aexpr) : nat :=
+  match a with
+  | ABin OEq _ _ => 1
+  | ABin OAdd _ _ | ABin OSub _ _ => 3
+  | ABin OMul _ _ | ABin ODiv _ _ => 5
+  | ABin OPow _ _ => 7
+  | ANeg _ => 7
+  | _ => 10
+  end.
+
+Definition tok_of (o : binop) : token :=
+  match o with OEq => TEq | OAdd => TPlus | OSub => TMinus | OMul => TStar | ODiv => TSlash | OPow => TCaret end.
+
+(* context of the left / right operand of o *)
+Definition left_ctx (o : binop) : nat :=
+  match o with OEq => 1 | OAdd | OSub => 3 | OMul | ODiv => 5 | OPow => 10 end.
+Definition right_ctx (o : binop) : nat :=
+  match o with OEq => 2 | OAdd | OSub => 4 | OMul | ODiv => 6 | OPow => 7 end.
+
+(* brackets exactly when the expression binds looser than its context requires *)
+Definition wrap (c : nat) (x : aexpr) (rx : list token) : list token :=
+  if (level x <? c)%nat then (TLP :: rx ++ [TRP])%list else rx.
+
+Fixpoint raw (a : aexpr) : list token :=
+  match a with
+  | ANum m e => [TNum m e]
+  | AVar s => [TId s]
+  | ANeg x => TMinus :: wrap 7 x (raw x)
+  | ABin o x y => (wrap (left_ctx o) x (raw x) ++ tok_of o :: wrap (right_ctx o) y (raw y))%list
+  | ACall f args =>
+      let sep := fix sep (l : list aexpr) : list token :=
+        match l with
+        | [] => []
+        | x :: r => match r with [] => raw x | _ :: _ => (raw x ++ TComma :: sep r)%list end
+        end in
+      if (f =? "list")%string then (TLB :: sep args ++ [TRB])%list
+      else if ((f =? "tuple")%string && negb (List.length args =? 1)%nat)%bool then (TLP :: sep args ++ [TRP])%list
+      else
+        match args with
+        | a0 :: more =>
+            if (f =? "index")%string then (wrap 10 a0 (raw a0) ++ TLB :: sep more ++ [TRB])%list
+            else if ((f =? "T")%string && (List.length more =? 0)%nat)%bool then (wrap 10 a0 (raw a0) ++ [TDotT])%list
+            else (TId f :: TLP :: sep args ++ [TRP])%list
+        | [] => (TId f :: TLP :: sep args ++ [TRP])%list
+        end
+  end.
+
+Definition show (c : nat) (a : aexpr) : list token := wrap c a (raw a).
 
 (* ------------------------------------------------------------------------------------------------ *)
 (* value                                                                                            *)
